@@ -4,7 +4,9 @@ pair, transcribed case by case from the C code as it is after the `fix:` commits
 C casts are explicit (`wrap32` = `(int)x`), the order of the type tests follows the C `switch`es.
 
 Behaviour that still deviates from the reference semantics (open known findings, known/C03.jsonl) is guarded by
-a flag of `Quirks`; `Quirks.real` (all flags on) is the code that exists.  Switching ONE flag off gives the code
+a flag of `Quirks`; `Quirks.real` is the code that exists.  Flags whose default is `false` are deviations that
+have been repaired in the repository (round 2 fix commits, notes/C03.md); their code paths are kept so that a
+revert of the fix is still explained.  Switching ONE flag off gives the code
 with that single deviation repaired — the judge uses this to attribute a disagreement to exactly one finding.
 -/
 import NV.C03.Spec
@@ -19,11 +21,11 @@ structure Quirks where
   addEqNumStr : Bool := true
   /-- f_range on strings: with OLD_RANGE_BEHAVIOR a `<` bound that lands before the start is clamped, not
       counted from the end (`else if`), unlike f_extract_range, buffers and the documentation -/
-  strRangeRevNeg : Bool := true
+  strRangeRevNeg : Bool := false
   /-- a zero byte cannot be stored through a buffer element lvalue (shares the char-lvalue code of strings) -/
   bufStoreZero : Bool := true
   /-- grammar.y folds `0 + X` / `X + 0` to `X` for real-typed X: the sign of a zero differs (-0.0 vs 0.0) -/
-  foldAddZeroReal : Bool := true
+  foldAddZeroReal : Bool := false
   /-- the `x == 0 -> !x`, `if (x != 0) -> if (x)` and `0 + X -> X` rewrites trust the grammar's optimistic static
       type (`mixed + int` is typed `int`, `mixed + real` `real`) although the value may be of another type -/
   optimisticTypes : Bool := true
@@ -32,12 +34,12 @@ structure Quirks where
   revRangeWrap : Bool := true
   /-- `#if` expressions are evaluated in 32-bit `int` (lib/lpc/preprocess.c cond_get_exp) although LPC integers
       have 64 bits -/
-  ppIf32 : Bool := true
+  ppIf32 : Bool := false
   /-- grammar.y turns `x[i..<k]` with a constant k <= 1 into `x[i..]`, also when it is an lvalue, where it then
       means `x[i..<1]`: `x[i..<0] = v` is accepted with the constant and an error with a variable 0 -/
-  lvRangeConstRev : Bool := true
+  lvRangeConstRev : Bool := false
   /-- grammar.y rewrites `0 - X` to `-X`: for X = 0.0 the result is -0.0, the computed difference is +0.0 -/
-  zeroMinusNeg : Bool := true
+  zeroMinusNeg : Bool := false
   deriving Repr, DecidableEq
 
 def Quirks.real : Quirks := {}
